@@ -34,8 +34,25 @@ func init() { children["ss"] = ssChildMain }
 
 type ssEnd struct {
 	After  int    `json:"after"`             // index of the last step sent
-	Mode   string `json:"mode"`              // eof | noreply | mid | break | breakmid
+	Mode   string `json:"mode"`              // eof | noreply | mid | break | breakmid | badpkt
 	MidOff int    `json:"mid_off,omitempty"` // bytes of the following frame sent before the end
+	// badpkt: the last thing the server receives is a well-FRAMED packet whose body does not decode
+	// (srvsession_bad.go): derived from a valid request of kind Bad by Defect.  The server has to stop on
+	// its own (the stream stays open until it did, or until the stop deadline passed); a packet that is
+	// merely to be refused (attrs-short) is answered and followed by EOF.  Unread: the packet goes out in
+	// the same write as the last request, whose reply is not read first (the workers are busy when it arrives).
+	Bad    string `json:"bad,omitempty"`
+	Defect string `json:"defect,omitempty"`
+	Unread bool   `json:"unread,omitempty"`
+	soft   bool   // set by the run: the packet was a refusable one (the session ended with EOF)
+}
+
+// unread: the reply to the last request was not read before the connection was ended.
+func (e ssEnd) unread() bool { return e.Mode == "noreply" || (e.Mode == "badpkt" && e.Unread) }
+
+// cleanEOF: the server sees EOF on a packet boundary (the os-backed Serve then returns nil).
+func (e ssEnd) cleanEOF() bool {
+	return e.Mode == "eof" || e.Mode == "noreply" || (e.Mode == "badpkt" && e.soft)
 }
 
 type ssJob struct {
@@ -47,7 +64,11 @@ type ssJob struct {
 	End  *ssEnd   `json:"end,omitempty"`
 	Fast bool     `json:"fast,omitempty"` // reduced deadlines: the parent has already seen many full-deadline liveness failures
 	Cl   string   `json:"cl,omitempty"`   // hang class of the job (lib/budget.go)
+	Full bool     `json:"full,omitempty"` // thorough tier or a replay: nothing is sampled out inside the case
 }
+
+// ssThoroughRun: set by the parent (thorough tier, or a replay) and handed to the children with every job.
+var ssThoroughRun bool
 
 // Liveness deadlines.  A healthy case is over in well under 50 ms; the full deadlines are the
 // ones the property is judged by.  Once the parent has collected ssSlowBudget failures that each
@@ -117,6 +138,13 @@ type ssSess struct {
 func ssOpen(cfg ssCfg, root string) (*ssSess, error) {
 	s := &ssSess{cfg: cfg, root: root, tree: filepath.Join(root, "t"), trk: newSSTrack(cfg)}
 	if cfg.Kind == "os" {
+		// the process directory (<root>/cwd, where relative paths made by mutations land) starts empty too:
+		// what one run left there must not be found by the next
+		if ents, err := os.ReadDir(filepath.Join(root, "cwd")); err == nil {
+			for _, e := range ents {
+				os.RemoveAll(filepath.Join(root, "cwd", e.Name()))
+			}
+		}
 		if err := ssMkTree(s.tree, cfg.Tree, cfg.Start); err != nil {
 			return nil, err
 		}
@@ -218,6 +246,7 @@ func ssRunRef(cfg ssCfg, prog []ssStep, root string) (*ssRef, ssResult) {
 	}
 	ref.Init = s.state()
 	handles := map[int]string{}
+	eff := newSSEffect(s)
 	for i, st := range prog {
 		f := st.frame(i, cfg, s.tree, handles)
 		q, why := ssParseReq(f[4], f[5:])
@@ -226,6 +255,7 @@ func ssRunRef(cfg ssCfg, prog []ssStep, root string) (*ssRef, ssResult) {
 			ref.Bad = true
 			break
 		}
+		eff.before(q)
 		s.srv.Send(f)
 		rep, err := s.srv.Recv(ssDlHang())
 		if err != nil {
@@ -235,6 +265,7 @@ func ssRunRef(cfg ssCfg, prog []ssStep, root string) (*ssRef, ssResult) {
 			break
 		}
 		res.Findings = append(res.Findings, s.trk.observe(q, rep)...)
+		res.Findings = append(res.Findings, eff.after(q, rep)...)
 		if h, ok := ssHandleOf(rep); ok {
 			handles[i] = h
 		}
@@ -251,6 +282,7 @@ func ssRunRef(cfg ssCfg, prog []ssStep, root string) (*ssRef, ssResult) {
 	if extra := s.finish(&res); len(extra) > 0 {
 		res.Findings = append(res.Findings, ssFinding{Key: cfg.Kind + "/extra-response/clean", What: "responses nobody asked for at the end of a valid session", Actual: ssReplyText(extra[0])})
 	}
+	res.Hist = append(res.Hist, eff.hist...)
 	return ref, res
 }
 
@@ -271,6 +303,13 @@ func ssRunC07(ref *ssRef, m ssMut, root string) ssResult {
 	}
 	res.NA, res.NB = nA, len(j.Reqs)-nA
 	hard := j.End == "badlen" || j.End == "unknown-type" || j.End == "short-body"
+	if p, esc := ssEscapes(cfg, root, filepath.Join(root, "t"), j.Reqs); esc {
+		// containment: the mutation made a request name a path outside the scratch directory
+		res.Hist = append(res.Hist, "not-run/os-request-names-a-path-outside-the-scratch-directory")
+		res.EndClass = "not-run"
+		_ = p
+		return res
+	}
 	// the key for symptoms of "acted on / answered the malformed packet"
 	malKey := func(symptom string) string {
 		if k == "os" && j.End == "short-body" {
@@ -331,12 +370,15 @@ func ssRunC07(ref *ssRef, m ssMut, root string) ssResult {
 		}
 	}
 	dead := false
+	eff := newSSEffect(s)
+	var got []wire.Pkt // the replies, in order (sequential mode)
 	if !m.Pipe {
 		for i, q := range j.Reqs {
 			before := ""
 			if q.Soft {
 				before = s.state()
 			}
+			eff.before(q)
 			s.srv.Send(stream[q.Off : q.Off+q.Len])
 			rep, err := s.srv.Recv(ssDlHang())
 			if err != nil {
@@ -346,7 +388,9 @@ func ssRunC07(ref *ssRef, m ssMut, root string) ssResult {
 				break
 			}
 			answered++
+			got = append(got, rep)
 			check(i, q, rep, before)
+			res.Findings = append(res.Findings, eff.after(q, rep)...)
 		}
 	}
 	rest := stream[j.EndOff:]
@@ -394,6 +438,7 @@ func ssRunC07(ref *ssRef, m ssMut, root string) ssResult {
 	} else if len(extra) > 0 && !dead {
 		res.Findings = append(res.Findings, ssFinding{Key: malKey("extra-response"), What: "a response was emitted that answers no well-formed request (reply to the malformed tail)", Expected: "nothing after the last well-formed request's reply", Actual: ssReplyText(extra[0])})
 	}
+	res.Hist = append(res.Hist, eff.hist...)
 	// state: exactly as if the stream had stopped just before the malformed packet
 	if res.NB == 0 && !dead && answered == nA && !cfg.InMem {
 		want := ref.Init
@@ -405,7 +450,57 @@ func ssRunC07(ref *ssRef, m ssMut, root string) ssResult {
 				Expected: ssDiffText(want, got, "-"), Actual: ssDiffText(got, want, "+")})
 		}
 	}
+	// effect of frames that carry bytes after the last field of their request: those bytes mean nothing —
+	// the stream re-encoded without them must be answered the same and leave the same files / handler log
+	if canon, changed, first := ssCanonical(stream, j.Reqs); changed && !m.Pipe && !dead && !cfg.InMem && len(got) == len(j.Reqs) {
+		res.Hist = append(res.Hist, "trailing-bytes-in-dispatched-frame/"+first)
+		var reps []wire.Pkt
+		var final, cstate string
+		ok := false
+		sameAsRef := len(canon) <= len(ref.Frames)
+		for i := 0; sameAsRef && i < len(canon); i++ {
+			sameAsRef = bytes.Equal(canon[i], ref.Frames[i])
+		}
+		switch {
+		case sameAsRef && len(canon) > 0:
+			// without those bytes the stream IS the recorded one: the reference run is the second run
+			res.Hist = append(res.Hist, "trailing-bytes/compared-with/the-reference-run")
+			reps, cstate, final, ok = ref.Replies[:len(canon)], ref.States[len(canon)-1], s.state(), true
+		case m.Kind == "type" && (m.Frame+int(m.Val))%3 != 0 && !ssThoroughRun:
+			// a replaced type byte mostly leaves a request of fewer fields and what was the rest of the old one
+			// after it: the same bytes-after-the-last-field situation the "tail" mutation puts every request
+			// kind into (and compares with the reference run for free) — quick: every third of them is re-run
+			res.Hist = append(res.Hist, "trailing-bytes/compared-with/nothing(type-byte-mutation,sampled-out)")
+		default:
+			res.Hist = append(res.Hist, "trailing-bytes/compared-with/a-second-run-of-the-re-encoded-stream")
+			final = s.effState() // (before the second run re-creates the tree)
+			reps, cstate, ok = ssRunCanon(cfg, root, canon, rest, &res)
+		}
+		if ok {
+			for i, rep := range reps {
+				if why := ssSameReply(rep, got[i]); why != "" {
+					q := j.Reqs[i]
+					res.Findings = append(res.Findings, ssFinding{Key: k + "/trailing-bytes-change-reply/" + q.Kind, What: fmt.Sprintf("request %d (%s) is answered differently in the stream as sent than in the same stream with the bytes after the last field of every request (here %d after a %s) removed: %s", i, q.Kind, j.Reqs[ssFirstSlack(j.Reqs)].Slack, first, why),
+						Expected: ssReplyText(rep), Actual: ssReplyText(got[i])})
+					break
+				}
+			}
+			if a, b := ssEffectState(final), ssEffectState(cstate); a != b {
+				res.Findings = append(res.Findings, ssFinding{Key: k + "/trailing-bytes-change-effect/" + first, What: fmt.Sprintf("bytes that follow the last field of a %s request inside its frame (%d of them) changed what the session did: the served files / handler log differ from those of the same stream without them", first, j.Reqs[ssFirstSlack(j.Reqs)].Slack),
+					Expected: ssDiffText(b, a, "-"), Actual: ssDiffText(a, b, "+")})
+			}
+		}
+	}
 	return res
+}
+
+func ssFirstSlack(reqs []ssReq) int {
+	for i, q := range reqs {
+		if q.Slack > 0 {
+			return i
+		}
+	}
+	return 0
 }
 
 // request kinds that change neither the served files nor the handle table, whatever their fields say
@@ -460,6 +555,10 @@ func ssRunC11(cfg ssCfg, prog []ssStep, end ssEnd, root string) ssResult {
 		return sb.String()
 	}
 	dead := false
+	var bad []byte // end.Mode badpkt: the undecodable packet
+	var badQ ssReq // … as the judge reads it (soft packets only)
+	var badErr error
+	badSent := false
 	for i := 0; i <= last; i++ {
 		fs := prog[i].frames(i, cfg, s.tree, handles)
 		q, why := ssParseReq(fs[0][4], fs[0][5:])
@@ -467,7 +566,7 @@ func ssRunC11(cfg ssCfg, prog []ssStep, end ssEnd, root string) ssResult {
 			add(ssFinding{Key: "tie/generator-frame-" + why, What: "the generator produced a frame its own judge rejects"})
 			break
 		}
-		noreply := end.Mode == "noreply" && i == last
+		noreply := end.unread() && i == last
 		stale := s.trk.stale(q)
 		if stale {
 			res.Hist = append(res.Hist, "stale/"+q.Kind)
@@ -485,7 +584,15 @@ func ssRunC11(cfg ssCfg, prog []ssStep, end ssEnd, root string) ssResult {
 		hkind, hlive := s.trk.live[q.Handle]
 		hlive = hlive && q.HasHandle
 		msnap := mrec.snap()
-		s.srv.Send(bytes.Join(fs, nil)) // a burst goes out in one write: pipelined
+		out := bytes.Join(fs, nil) // a burst goes out in one write: pipelined
+		if noreply && end.Mode == "badpkt" {
+			// the undecodable packet travels with the last request (which may be a CLOSE: the packet then names
+			// a handle that is being closed — it is not to be dispatched either way)
+			bad, badQ, badErr = ssBadFor(&end, cfg, s)
+			out = append(out, bad...)
+			badSent = true
+		}
+		s.srv.Send(out)
 		if q.Kind == "close" {
 			closeSent[q.Handle] = true
 		}
@@ -556,7 +663,7 @@ func ssRunC11(cfg ssCfg, prog []ssStep, end ssEnd, root string) ssResult {
 		}
 	}
 	// how the connection ends
-	if !dead && end.Mode != "noreply" {
+	if !dead && !end.unread() {
 		mrec.samplePre()
 	}
 	if !dead && (end.Mode == "mid" || end.Mode == "breakmid") {
@@ -572,6 +679,37 @@ func ssRunC11(cfg ssCfg, prog []ssStep, end ssEnd, root string) ssResult {
 			n = len(nf) - 1
 		}
 		s.srv.Send(nf[:n])
+	}
+	if !dead && end.Mode == "badpkt" {
+		if !badSent {
+			bad, badQ, badErr = ssBadFor(&end, cfg, s)
+			if badErr == nil {
+				s.srv.Send(bad)
+			}
+		}
+		switch {
+		case badErr != nil:
+			add(ssFinding{Key: "tie/generator-undecodable-packet", What: badErr.Error()})
+		case end.soft && !end.Unread:
+			// a complete request that must be refused: answered, then EOF
+			rep, err := s.srv.Recv(ssDlHang())
+			if err != nil {
+				add(ssFinding{Key: fmt.Sprintf("%s/valid-request-unanswered/%s", k, badQ.Kind), What: "no reply to a request that is to be refused (attribute block shorter than its flags) with the stream still open: " + err.Error(), Actual: hex.EncodeToString(bad)})
+				res.Exit, res.Slow = err == errSSTimeout, err == errSSTimeout
+				dead = true
+			} else {
+				res.Findings = append(res.Findings, s.trk.observe(badQ, rep)...)
+			}
+		case !end.soft:
+			// the server has to stop on its own; whether it does is C07's subject — here the stream is closed
+			// once the stop deadline has passed, and everything open must be released all the same
+			if !s.srv.Wait(ssDlStop()) {
+				res.Hist = append(res.Hist, "badpkt/server-did-not-stop-by-itself-within-"+ssDlStop().String())
+				res.Slow = true
+			}
+		}
+		res.Hist = append(res.Hist, "badpkt/request/"+end.Bad, "badpkt/defect/"+ssBadDefectClass(end.Defect), fmt.Sprintf("badpkt/live-handles/%d", ssBucket(len(s.trk.live))),
+			fmt.Sprintf("badpkt/refusable=%v/unread=%v", end.soft, end.Unread))
 	}
 	if end.Mode == "break" || end.Mode == "breakmid" {
 		s.srv.Break()
@@ -653,12 +791,12 @@ func ssDebugCheck(s *ssSess, end ssEnd, closeSent map[string]bool, res *ssResult
 			add("os/debug-left-open-twice", fmt.Sprintf("the end-of-Serve sweep reported handle %q twice", h), "once", strings.Join(hs, " "))
 		case s.trk.issued[h] && !live:
 			add("os/closed-handle-swept", fmt.Sprintf("handle %q was closed by an answered CLOSE, yet the end-of-Serve sweep found it in the table", h), "not reported", strings.Join(hs, " "))
-		case !s.trk.issued[h] && end.Mode != "noreply":
+		case !s.trk.issued[h] && !end.unread():
 			add("os/debug-unknown-handle", fmt.Sprintf("the end-of-Serve sweep reported handle %q, which no HANDLE reply ever carried", h), "only issued handles", strings.Join(hs, " "))
 		}
 		seen[h] = true
 	}
-	if end.Mode == "noreply" {
+	if end.unread() {
 		return // the last request was not answered before the end: the set of open handles is not known exactly
 	}
 	var missing []string
@@ -671,6 +809,26 @@ func ssDebugCheck(s *ssSess, end ssEnd, closeSent map[string]bool, res *ssResult
 		sort.Strings(missing)
 		add("os/debug-left-open-missing", "handles that were open when the connection ended are not reported by the end-of-Serve sweep", strings.Join(missing, " "), strings.Join(hs, " "))
 	}
+}
+
+// ssBadFor renders the undecodable packet of end for the session as it stands (the handle it names is
+// chosen among the handles that are live now) and records in end whether it is a refusable one.
+func ssBadFor(end *ssEnd, cfg ssCfg, s *ssSess) (f []byte, q ssReq, err error) {
+	f, soft, err := ssBadFrame(end.Bad, end.Defect, ssBadHandle(strings.TrimPrefix(end.Bad, "ext:"), s.trk), cfg, s.tree)
+	if err != nil {
+		return nil, q, err
+	}
+	end.soft = soft
+	if soft {
+		q, _ = ssParseReq(f[4], f[5:])
+	}
+	return f, q, nil
+}
+
+// ssBadDefectClass drops the field name: cut | in | over | huge | type-only | attrs-short | id-only …
+func ssBadDefectClass(d string) string {
+	c, _, _ := strings.Cut(d, ":")
+	return c
 }
 
 func ssBucket(n int) int {
@@ -741,6 +899,7 @@ func ssChildMain(args []string) {
 func ssDoJob(job *ssJob, root string, known map[string]*ssKnown) ssResult {
 	// reduced deadlines: the parent's own rule (ssSlowBudget), or the run's hang budget is used up / its soft deadline passed
 	ssFast = job.Fast || lib.HangExhausted() || lib.Expired()
+	ssThoroughRun = job.Full
 	kn := known[job.PID]
 	if kn == nil {
 		if job.Cfg == nil {
@@ -860,7 +1019,7 @@ func (j *ssPJob) class() string {
 }
 
 func (j *ssPJob) wire(withProg bool) []byte {
-	w := ssJob{Kind: j.Kind, PID: j.PID, Mut: j.Mut, End: j.End, Fast: ssSlowSeen.Load() >= ssSlowBudget, Cl: j.class()}
+	w := ssJob{Kind: j.Kind, PID: j.PID, Mut: j.Mut, End: j.End, Fast: ssSlowSeen.Load() >= ssSlowBudget, Cl: j.class(), Full: ssThoroughRun}
 	if withProg {
 		w.Cfg, w.Prog = &j.Cfg, j.Prog
 	}
